@@ -903,8 +903,91 @@ impl Space for Convert {
     }
 }
 
+/// Saving a tile to a path (`BuiltAdt::write_to_file`) over whatever the path holds: absent, a shorter
+/// tile, a longer tile, the same tile. The file must afterwards be exactly what `to_bytes()` yields (so
+/// the chunk framing tiles the *file*, not only the byte vector).
+struct SaveFile {
+    specs: Vec<Spec>,
+    scratch: Scratch,
+}
+impl SaveFile {
+    fn new() -> SaveFile {
+        let mut specs = vec![];
+        for vi in 0..VERSIONS.len() {
+            specs.push(Spec::minimal(vi).canonical());
+            specs.push(Spec::full(vi).canonical());
+        }
+        SaveFile { specs, scratch: Scratch::new("c14save") }
+    }
+}
+impl Space for SaveFile {
+    fn len(&self) -> u64 {
+        // (first tile or nothing) x second tile
+        ((self.specs.len() + 1) * self.specs.len()) as u64
+    }
+    fn describe(&self, i: u64) -> Value {
+        let n = self.specs.len();
+        let (a, b) = ((i as usize) / n, (i as usize) % n);
+        json!({"space": "savefile", "path_holds_before": if a == 0 { json!("nothing") } else { self.specs[a - 1].json() }, "saved": self.specs[b].json()})
+    }
+    fn run(&self, i: u64) -> CaseResult {
+        let n = self.specs.len();
+        let (a, b) = ((i as usize) / n, (i as usize) % n);
+        let mut r = CaseResult::new();
+        r.key = format!("save{i}");
+        let path = self.scratch.path(&format!("t{i}.adt"));
+        let _ = std::fs::remove_file(&path);
+        let mut before_len = 0usize;
+        if a > 0 {
+            match build(&make_input(&self.specs[a - 1])).and_then(|t| t.write_to_file(&path)) {
+                Ok(()) => before_len = std::fs::metadata(&path).map(|m| m.len() as usize).unwrap_or(0),
+                Err(_) => {
+                    r.err_return = true;
+                    r.outcome = "first-save-refused".into();
+                    return r;
+                }
+            }
+        }
+        let tile = match build(&make_input(&self.specs[b])) {
+            Ok(t) => t,
+            Err(_) => {
+                r.err_return = true;
+                r.outcome = "build-refused".into();
+                return r;
+            }
+        };
+        let want = match tile.to_bytes() {
+            Ok(w) => w,
+            Err(_) => {
+                r.err_return = true;
+                r.outcome = "to_bytes-refused".into();
+                return r;
+            }
+        };
+        r.nontrivial = true;
+        match tile.write_to_file(&path) {
+            Ok(()) => {
+                let got = std::fs::read(&path).unwrap_or_default();
+                r.outcome = format!("saved over {}", if a == 0 { "nothing" } else if before_len > want.len() { "a longer file" } else if before_len < want.len() { "a shorter file" } else { "a file of the same length" });
+                if got != want {
+                    let class = if got.len() > want.len() && got[..want.len()] == want[..] { "stale tail of the previous file left behind the tile" } else { "bytes differ" };
+                    r.viol(format!("write_to_file: the file on disk differs from to_bytes() ({class})"), format!("file {} bytes, to_bytes {} bytes, path held {} bytes before", got.len(), want.len(), before_len));
+                }
+                r.count("files_saved", 1);
+            }
+            Err(e) => {
+                r.err_return = true;
+                r.outcome = format!("save-refused: {}", err_class(&e.to_string()));
+            }
+        }
+        let _ = std::fs::remove_file(&path);
+        r
+    }
+}
+
 fn build_space(name: &str, _arg: &str, tier: Tier) -> Box<dyn Space> {
     match name {
+        "savefile" => Box::new(SaveFile::new()),
         "main" => Box::new(Main::new(tier)),
         "ext" => Box::new(Ext::new()),
         "chunks" => Box::new(Chunks::new()),
@@ -1073,7 +1156,7 @@ fn main() {
     let tier = c.tier;
     let (dmin, dfull) = tier.pick((2, 2), (3, 3));
     c.rule = format!(
-        "builder inputs = all specs with <= {dmin} deviations from the minimal baseline and <= {dfull} from the version-adjusted full baseline over {} sites ({} site values in total) x 6 target versions (VanillaEarly..MoP), canonicalised (sites without effect reset) and de-duplicated{}; per case: build -> to_bytes -> independent walker -> parse_adt -> content comparison with the input, then {ROUNDS} rounds of parse -> rebuild -> to_bytes on two rebuild paths (BuiltAdt::from_root_adt(root, None) and AdtBuilder::from_parsed(root).build()), every produced file walked. A case is non-trivial when the builder accepted it and a file was produced; distinct by (version, site vector).",
+        "builder inputs = all specs with <= {dmin} deviations from the minimal baseline and <= {dfull} from the version-adjusted full baseline over {} sites ({} site values in total) x 6 target versions (VanillaEarly..MoP), canonicalised (sites without effect reset) and de-duplicated{}; per case: build -> to_bytes -> independent walker -> parse_adt -> content comparison with the input, then {ROUNDS} rounds of parse -> rebuild -> to_bytes on two rebuild paths (BuiltAdt::from_root_adt(root, None) and AdtBuilder::from_parsed(root).build()), every produced file walked; space savefile: BuiltAdt::write_to_file of the minimal and the full tile of every version over a path that holds nothing / each of those tiles (shorter, longer, same), file == to_bytes(). A case is non-trivial when the builder accepted it and a file was produced; distinct by (version, site vector).",
         NSITES,
         SITES.iter().map(|s| s.vals.len()).sum::<usize>(),
         if tier == Tier::Quick { "; 256 populated MCNK within <= 2 deviations of the minimal and <= 1 of the full baseline".to_string() } else { format!("; thorough adds a third baseline (full with staggered sub-chunk presence: sub-chunk k present on chunk i iff (i+k) even) with the same deviation bound as full, 256 populated MCNK there only within <= 2 deviations; with 3 deviations, inputs that the builder documents as refused are not enumerated again. The sites of space main use their core values ({} values). Thorough-only spaces over the extended alphabet ({} values: name lists of 300 names / > 65535 bytes, multi-byte UTF-8 names, 1821 doodad and 1025 WMO placements (> 65535 bytes), 3/17/255/257 terrain chunks, 2 and 3 layers, 3-byte alpha maps, 40 sound emitters, WMO-only and 150 references, ocean/slime/flat legacy liquid, all 8 subsets of MCMT/MCDD/MCBB, chunk flags impassable+do-not-fix-alpha and high-res holes with a hole bitmap, water on all 256 chunks / attributes-only entry / 1-entry list, 3-layer and 64-bit-bitmap water, MTXF/MTXP counts differing from the texture count, 1-batch and > 65535-byte blend meshes): ext = all specs with <= 2 deviations from the three baselines with at least one extended value; chunks = full product of {} per-chunk sites ({} combinations, 256 consecutive combinations on the 256 terrain chunks of one tile, {} tiles) x 6 versions, top level at the full baseline, 2 rounds; top_names = full product textures x models x doodads x wmos x wmo_placements x flight_bounds x water(none, chunk 0) x 6 versions; top_chunks = full product textures(1, 3) x flight_bounds x mtxf(4) x mamp x mtxp(3) x blend_mesh(4) x water set(8) x water format(10) x 6 versions with one terrain chunk, and the same product with one water format and the 256 terrain chunks the serialiser generates, all without the combinations documented as refused, 3 rounds on three rebuild paths (the third alternates from_root_adt and from_parsed); convert = the three baselines with <= 1 deviation over the whole alphabet, and the full baseline with 2 deviations among the top-level sites, x 6 versions: BuiltAdt::from_root_adt(root, Some(v)) for all 6 v, one plain re-serialisation of every converted tile on both rebuild paths (no growth, same content), and back to the built version (every file walked; content compared for the sections that exist in the oldest version of the chain; all-zero MFBO / MTXF added by a conversion not judged), then AdtBuilder::from_parsed(root) + add_texture/add_model/add_wmo/add_mcnk_chunk -> build -> to_bytes -> walk -> parse == parsed content plus the additions", SITES.iter().map(|s| s.core).sum::<usize>(), SITES.iter().map(|s| s.vals.len()).sum::<usize>(), CHUNK_PRODUCT.len(), chunk_product_len(), chunk_product_len().div_ceil(256)) }
@@ -1086,6 +1169,7 @@ fn main() {
     c.assume("raw sub-chunk sizes: MCVT/MCCV/MCLV 4 bytes per vertex, MCNR 3 bytes per normal plus 13, MCLY 16 bytes per layer, MCRF/MCRD/MCRW 4 bytes per reference, MCSE 28 bytes per emitter, MCSH/MCAL the bytes given (record sizes of /repo/docs/src/formats/world-data/adt.md and the public ADT/v18 layout)");
     c.assume("explicit version conversion: sections that do not exist in the target version may be dropped, an all-zero MFBO and one zero MTXF flag per texture may be added (documented on BuiltAdt::from_root_adt); the MCNK flag word is not compared below MoP; file growth is not judged for conversions");
     c.run_space("main", "");
+    c.run_space("savefile", "");
     if tier == Tier::Thorough {
         for sp in ["ext", "chunks", "top_names", "top_chunks", "convert"] {
             c.run_space(sp, "");
